@@ -346,12 +346,18 @@ func matryerContracts(p *packages.Package, v instVariant) (string, []structFact)
 			}
 			infos = append(infos, mi)
 		}
-		recv := "mock"
+		// the receiver name of a generated method (each method has its own: the template avoids parameter names)
+		recvOf := func(method string) string {
+			if sel := mset.Lookup(p.Types, method); sel != nil {
+				if r := sel.Obj().(*types.Func).Type().(*types.Signature).Recv(); r != nil && r.Name() != "" {
+					return r.Name()
+				}
+			}
+			return "mock"
+		}
 		target := func(m string) string { return fmt.Sprintf("(*Moq%s).%s", n, m) }
 		for _, mi := range infos {
-			if r := mi.gen.Type().(*types.Signature).Recv(); r != nil && r.Name() != "" {
-				recv = r.Name()
-			}
+			recv := recvOf(mi.name)
 			loc := recv + ".calls." + mi.name
 			lock := recv + ".lock" + mi.name
 			fn := recv + "." + mi.name + "Func"
@@ -410,12 +416,16 @@ func matryerContracts(p *packages.Package, v instVariant) (string, []structFact)
 			}
 			fmt.Fprintf(&b, "//@   returns#released[C05] !locked(%s)\n\n", lock)
 
+			recv = recvOf(mi.name + "Calls")
+			loc, lock = recv+".calls."+mi.name, recv+".lock"+mi.name
 			fmt.Fprintf(&b, "//@ func %s props=C04,C05\n", target(mi.name+"Calls"))
 			fmt.Fprintf(&b, "//@   guarded[C05] %s by %s\n", loc, lock)
 			fmt.Fprintf(&b, "//@   ensures#records result == %s\n", loc)
 			fmt.Fprintf(&b, "//@   returns#released[C05] !locked(%s)\n", lock)
 			fmt.Fprintf(&b, "//@   assigns nothing\n\n")
 			if v.resets {
+				recv = recvOf("Reset" + mi.name + "Calls")
+				loc, lock = recv+".calls."+mi.name, recv+".lock"+mi.name
 				fmt.Fprintf(&b, "//@ func %s props=C04,C05\n", target("Reset"+mi.name+"Calls"))
 				fmt.Fprintf(&b, "//@   guarded[C05] %s by %s\n", loc, lock)
 				fmt.Fprintf(&b, "//@   ensures#emptied len(%s) == 0\n", loc)
@@ -425,6 +435,7 @@ func matryerContracts(p *packages.Package, v instVariant) (string, []structFact)
 			}
 		}
 		if v.resets && len(infos) > 0 {
+			recv := recvOf("ResetCalls")
 			fmt.Fprintf(&b, "//@ func %s props=C04,C05\n", target("ResetCalls"))
 			var emptied, assigns []string
 			for _, mi := range infos {
@@ -840,7 +851,6 @@ type badShape struct {
 
 // shapes for which a built-in template is known to produce a file that does not compile (known findings of C01)
 var badShapes = []badShape{
-	{"param_named_mock.go", "matryer", "{skip-ensure: true}", "a parameter named mock collides with the receiver of the matryer template"},
 	{"method_named_mock.go", "testify", "{unroll-variadic: true}", "a method named Mock collides with the embedded testify mock.Mock field"},
 	{"comparable_constraint.go", "matryer", "{skip-ensure: false}", "the matryer ensure line instantiates the mock with the constraint comparable itself"},
 }
